@@ -277,7 +277,86 @@ def rec_logic(rnd, tid):
                                            "args": f"logic formula over {len(used)} variables, {len(recs)} nodes"}
 
 
-MAKERS = [rec_cp, rec_tucker, rec_tt, rec_hmm, rec_ff, rec_logic]
+def rec_sdd(rnd, tid):
+    """a random SDD over a right-linear vtree, written in the libsdd file format (root id 0, children
+    before parents, true / false terminals) and loaded with SDD.load"""
+    import os  # pylint: disable=import-outside-toplevel
+    import tempfile  # pylint: disable=import-outside-toplevel
+    from cirkit.templates.logic.sdd import SDD  # pylint: disable=import-outside-toplevel
+    nv = rnd.choice([2, 3, 4])
+    recs, lines = [], []          # recs: formula DAG for the specification; lines: (tag, rec index, payload)
+    memo = {}
+
+    def node(t, v=0, ins=()):
+        key = (t, v, tuple(ins))
+        if t in ("lit", "nlit", "top", "bot") and key in memo:
+            return memo[key]
+        recs.append({"t": t, "v": v, "ins": list(ins)})
+        memo[key] = len(recs)
+        return len(recs)
+
+    def gen(vs):
+        x, rest = vs[0], vs[1:]
+        if not rest:
+            c = rnd.choice(["p", "n", "t"])
+            return node("lit", x) if c == "p" else node("nlit", x) if c == "n" else node("top")
+        def sub():
+            if rnd.random() < 0.2:
+                return node("top")
+            k = rnd.randint(1, len(rest))
+            return gen(rest[len(rest) - k:])           # a suffix: respects the right-linear vtree
+        shape = rnd.choice(["both", "both", "pos", "neg"])
+        px, nx = node("lit", x), node("nlit", x)
+        s1 = sub() if shape in ("both", "pos") else node("bot")
+        s2 = sub() if shape in ("both", "neg") else node("bot")
+        a1, a2 = node("and", 0, [px, s1]), node("and", 0, [nx, s2])
+        d = node("or", 0, [a1, a2])
+        lines.append((d, [(px, s1), (nx, s2)]))
+        return d
+
+    order = list(range(nv))
+    rnd.shuffle(order)
+    root = gen(order)
+    used = sorted({r["v"] for r in recs if r["t"] in ("lit", "nlit")})
+    remap = {v: i for i, v in enumerate(used)}
+    for r in recs:
+        if r["t"] in ("lit", "nlit"):
+            r["v"] = remap[r["v"]]
+    # sdd node ids: the root is 0; "and" records are elements, not sdd nodes
+    sdd_nodes = [i for i, r in enumerate(recs, start=1) if r["t"] != "and"]
+    ids = {root: 0}
+    for i in sdd_nodes:
+        if i != root:
+            ids[i] = len(ids)
+    text = ["c generated", f"sdd {len(sdd_nodes)}"]
+    decisions = dict(lines)
+    for i in sdd_nodes:                                # creation order is bottom-up
+        r = recs[i - 1]
+        if r["t"] == "top":
+            text.append(f"T {ids[i]}")
+        elif r["t"] == "bot":
+            text.append(f"F {ids[i]}")
+        elif r["t"] == "lit":
+            text.append(f"L {ids[i]} {2 * r['v']} {r['v'] + 1}")
+        elif r["t"] == "nlit":
+            text.append(f"L {ids[i]} {2 * r['v']} {-(r['v'] + 1)}")
+        else:
+            el = decisions[i]
+            text.append(f"D {ids[i]} {2 * len(el) + 1} {len(el)} " + " ".join(f"{ids[p]} {ids[q]}" for p, q in el))
+    fd, path = tempfile.mkstemp(suffix=".sdd")
+    try:
+        with os.fdopen(fd, "w") as f:
+            f.write("\n".join(text) + "\n")
+        lc = SDD.load(path)
+    finally:
+        os.unlink(path)
+    c = lc.build_circuit()
+    shape = [2] * len(used)
+    return c, shape, Valuation(tid), True, {"kind": "logic", "nodes": recs, "root": root,
+                                           "args": f"sdd file over {len(used)} variables: " + " | ".join(text[1:])}
+
+
+MAKERS = [rec_cp, rec_tucker, rec_tt, rec_hmm, rec_ff, rec_logic, rec_sdd]
 EMPTY = {"A": [], "w": [], "G": [], "rank": 0, "V1": [], "Vin": [], "Vn": [], "ord": [], "K": 0,
          "E": [], "T": [], "pi": [], "cats": [], "want_cats": [], "P": [], "nodes": [], "root": 0,
          "mc": 0}
